@@ -249,6 +249,22 @@ type env struct {
 	rt     *goja.Runtime
 	events []string
 	script []bool
+	capped bool
+}
+
+// no legal case of the generator comes near this many events; a run that does (miscompiled control flow
+// looping forever) is cut short and reported as an observation that can never match a model
+const eventCap = 3000
+
+func (e *env) log(s string) {
+	if len(e.events) >= eventCap {
+		if !e.capped {
+			e.capped = true
+			e.rt.Interrupt("event-cap")
+		}
+		return
+	}
+	e.events = append(e.events, s)
 }
 
 func newEnv(script []bool) *env {
@@ -256,14 +272,14 @@ func newEnv(script []bool) *env {
 	rt := e.rt
 	rt.SetMaxCallStackSize(60)
 	rt.Set("ev", func(n int) int {
-		e.events = append(e.events, fmt.Sprintf("EEv %d", n))
+		e.log(fmt.Sprintf("EEv %d", n))
 		return n
 	})
 	rt.Set("lg", func(kind, id int) {
 		if kind == 1 {
-			e.events = append(e.events, fmt.Sprintf("ENext %d", id))
+			e.log(fmt.Sprintf("ENext %d", id))
 		} else {
-			e.events = append(e.events, fmt.Sprintf("EReturn %d", id))
+			e.log(fmt.Sprintf("EReturn %d", id))
 		}
 	})
 	rt.Set("c", func() bool {
@@ -305,6 +321,15 @@ func coqVal(rt *goja.Runtime, v goja.Value) string {
 
 func (e *env) finish(v goja.Value, err error, timedOut *bool) obs {
 	o := obs{events: e.events}
+	if e.capped || *timedOut {
+		// runaway execution: keep a short prefix; OStuck never equals a model outcome
+		if len(o.events) > 40 {
+			o.events = o.events[:40]
+		}
+		o.out = "OStuck"
+		o.note = fmt.Sprintf("runaway execution cut short (event cap %d reached=%v, watchdog=%v)", eventCap, e.capped, *timedOut)
+		return o
+	}
 	switch {
 	case err == nil:
 		cv := coqVal(e.rt, v)
